@@ -67,6 +67,7 @@ package conan
 //@   ensures prefix-length: len(result) <= len(s)
 
 //@ func rebuildConstraintsFromParts
+//@   loop 1 decreases len(parts) - i   // termination (C06): every branch advances the index
 //@   loop 1 invariant 0 <= i
 
 // ---- stored text (C18)
@@ -89,6 +90,7 @@ package conan
 //@   ensures major-pinned: version.Compare(constraint) >= 0 && len(constraint.parts) == 1 ==> result == samePart(partAt(version, 0), constraint.parts[0])   [C05]
 //@   ensures minor-pinned: version.Compare(constraint) >= 0 && len(constraint.parts) >= 2 ==> result == (samePart(partAt(version, 0), constraint.parts[0]) && samePart(partAt(version, 1), constraint.parts[1]))   [C05]
 //@ func (*VersionRange).caretMatch
+//@   loop 2 decreases len(constraint.parts) - 1 - i   // termination (C06)
 //@   ensures below-base: version.Compare(constraint) < 0 ==> !result   [C05]
 //@   ensures no-components: version.Compare(constraint) >= 0 && len(constraint.parts) == 0 ==> result   [C05]
 //@   ensures major-pinned: version.Compare(constraint) >= 0 && len(constraint.parts) >= 1 && !samePart(constraint.parts[0], "0") ==> result == samePart(partAt(version, 0), constraint.parts[0])   [C05]
